@@ -105,7 +105,8 @@ type c19val struct {
 	bad   bool
 }
 
-var c19strings = []string{"", "a", "hello world", `quote"inside`, `back\slash`, "tab\tnl\ncr\r", "\x00\x01\x1f\x7f", "é ü ñ", "日本語", "  ", "<script>&amp;</script>", "😀", `{"code":0}`, `"`, `\"`, "/*c*/ //d", "null", "\ufeffbom", strings.Repeat("x", 300)}
+var c19strings = []string{"", "a", "hello world", `quote"inside`, `back\slash`, "tab\tnl\ncr\r", "\x00\x01\x1f\x7f", "é ü ñ", "日本語", "  ", "<script>&amp;</script>", "😀", `{"code":0}`, `"`, `\"`, "/*c*/ //d", "null", "\ufeffbom", strings.Repeat("x", 300),
+	"cpu 100% busy", "%s%d%v%!", "%", "%%", "50%-off", strings.Repeat("chunked-", 700), strings.Repeat("é", 3000)}
 
 func c19str(r *h.Rand) string {
 	if r.Chance(70) {
@@ -439,8 +440,23 @@ func c19(c *h.Ctx) {
 	for i, v := range fixed {
 		doData(v, i, callbacks[i%len(callbacks)], "data/fixed")
 	}
-	for _, s := range c19strings {
+	for i, s := range c19strings {
 		doData(c19val{s, "s" + c19hex(s), false}, 0, "", "data/string-table")
+		// and wrapped by a callback (format verbs in the JSON must come through untouched)
+		doData(c19val{s, "s" + c19hex(s), false}, 0, callbacks[i%len(callbacks)], "data/string-table+callback")
+	}
+	// envelopes larger than the server's write buffer are sent chunked (no Content-Length): the client must read them whole
+	for _, n := range []int{300, 3000} {
+		l := make([]interface{}, n)
+		canon := "["
+		for i := range l {
+			l[i] = float64(i)
+			if i > 0 {
+				canon += ","
+			}
+			canon += "i" + fmt.Sprint(i)
+		}
+		doData(c19val{l, canon + "]", false}, 0, "", "data/large-list")
 	}
 	nd := c.N(700, 20000)
 	for i := 0; i < nd; i++ {
